@@ -134,6 +134,55 @@ pub fn check_rules_on<G: GraphLike + PartialEq>(
             }
         }
     }
+    // a rewrite walk: up to 6 accepted rule applications one after the other on the same object
+    // (the choice among the accepted matches is a function of the diagram), the map compared
+    // after every step - states that only arise in the middle of a rewrite sequence
+    {
+        let mut w = g.clone();
+        let mut salt = crate::engine::mix(d.verts.len() as u64 * 131 + d.edges.len() as u64, obs_before.len() as u64);
+        let mut trail: Vec<String> = vec![];
+        for step in 0..6 {
+            let ids = arg_ids(&w);
+            let mut matches: Vec<(Rule, V, V)> = vec![];
+            for &rule in rules {
+                for &a in &ids {
+                    if rule.arity() == 1 {
+                        if catch(|| rule.check(&w, a, a)).unwrap_or(false) {
+                            matches.push((rule, a, a));
+                        }
+                    } else {
+                        for &b in &ids {
+                            if catch(|| rule.check(&w, a, b)).unwrap_or(false) {
+                                matches.push((rule, a, b));
+                            }
+                        }
+                    }
+                }
+            }
+            if matches.is_empty() {
+                break;
+            }
+            salt = crate::engine::mix(salt, step as u64 + 1);
+            let (rule, v0, v1) = matches[(salt % matches.len() as u64) as usize];
+            trail.push(format!("{}({v0},{v1})", rule.name()));
+            let what = format!("{backend}: rewrite walk {}", trail.join(" ; "));
+            let r = catch(|| rule.checked(&mut w, v0, v1)).map_err(|p| format!("{what}: the last step panicked: {p}"))?;
+            if r == Some(false) {
+                return Err(format!("{what}: matcher accepted but the checked form returned false"));
+            }
+            match graph_truth(&w) {
+                GraphTruth::Ok(t) => same_truth(before, &t, REL_TOL).map_err(|e| format!("{what}: the last step changed the linear map: {e}"))?,
+                GraphTruth::TooBig => {
+                    obs.skip("oracle-too-big");
+                    break;
+                }
+                GraphTruth::Malformed(m) => return Err(format!("{what}: the result is not a well-formed diagram: {m}")),
+            }
+            if step >= 2 {
+                obs.class("walk>=3-steps");
+            }
+        }
+    }
     Ok(())
 }
 
